@@ -351,7 +351,7 @@ namespace bluetoe
                             used_buffer_  = 0;
                             in_flash_mode = true;
 
-                            if ( !MemRegions::acceptable( start_address, start_address ) )
+                            if ( !flashable_page( start_address ) )
                                 return request_error( bluetoe::error_codes::invalid_offset );
 
                             for ( auto& buffer : buffers_ )
@@ -599,7 +599,7 @@ namespace bluetoe
                 {
                     const auto next = ( next_buffer_ + 1 ) % number_of_concurrent_flashs;
 
-                    if ( buffers_[ next ].empty() )
+                    if ( buffers_[ next ].empty() && flashable_page( start_address ) )
                     {
                         ++consecutive_;
                         buffers_[ next ].set_start_address( start_address, *this, buffers_[ next_buffer_ ].crc(), consecutive_ );
@@ -609,6 +609,16 @@ namespace bluetoe
                     }
 
                     return false;
+                }
+
+                // Flashing is done in whole pages: the page that contains the given address has to be
+                // entirely within the white list.
+                static bool flashable_page( std::uintptr_t address )
+                {
+                    const std::uintptr_t page_start = address - address % PageSize;
+                    const std::uintptr_t page_end   = page_start + PageSize;
+
+                    return page_start < page_end && MemRegions::acceptable( page_start, page_end );
                 }
 
                 std::pair< std::uint8_t, bool > request_error( std::uint8_t code )
